@@ -5,6 +5,7 @@ float checker (`Model/FloatCheck.lean`) and the positioned-box plumbing (`Model/
 import WpModel.Props.C11
 import WpModel.Model.FloatCheck
 import WpModel.Model.Positioned
+import WpModel.Model.FixedPages
 import WpModel.Model.FloatFlow
 import WpModel.Model.FloatTrace
 
@@ -148,19 +149,24 @@ theorem GoodFloat_move (b : ABox) (x y : Rat) (h : GoodFloat b) : GoodFloat { b 
   obtain ⟨h1, h2, h3, h4⟩ := h
   exact ⟨h1, h2, by simpa [ABox.marginHeight] using h3, by simpa [ABox.marginWidth] using h4⟩
 
-/-- With no float inside the line, `get_next_linebox` leaves `excluded_shapes` alone. -/
+/-- `float_layout` when `context.excluded_shapes` is the stack's top (always, except after a line was started
+again): the placement part `floatPlace`. -/
+theorem floatLayout_self (shapes : List Shape) (b : ABox) (cb : CB) :
+    floatLayout shapes shapes b cb = floatPlace shapes b cb := rfl
+
+/-- With no float inside the line, `get_next_linebox` leaves both float lists alone. -/
 private theorem lineLoop_shapes (cb : CB) (strut : Rat) (align : Align) (l : LineSpec) (shapes0 : List Shape)
     (hl : l.floats = []) (fuel : Nat) (px py avail lbw cand : Rat) (t : LineTry)
-    (h : lineLoop cb strut align l shapes0 fuel px py avail lbw cand = .ok t) :
-    t.shapes = shapes0 ∧ t.marks = [] := by
+    (h : lineLoop cb strut align l shapes0 fuel shapes0 shapes0 px py avail lbw cand = .ok t) :
+    t.shapes = shapes0 ∧ t.top = shapes0 ∧ t.marks = [] := by
   induction fuel generalizing px py avail lbw cand with
   | zero => simp [lineLoop] at h
   | succ n ih =>
-    simp only [lineLoop, hl, inlinePass1] at h
+    simp only [lineLoop, hl, inlinePass1, ite_self] at h
     split at h
     · simp at h
     · split at h
-      · simp at h; rw [← h]; exact ⟨rfl, rfl⟩
+      · simp at h; rw [← h]; exact ⟨rfl, rfl, rfl⟩
       · split at h
         · simp at h
         · cases hr : cb.rtl <;>
@@ -168,39 +174,39 @@ private theorem lineLoop_shapes (cb : CB) (strut : Rat) (align : Align) (l : Lin
             split at h <;>
             first
               | exact ih _ _ _ _ _ h
-              | (simp only [Except.ok.injEq] at h; rw [← h]; exact ⟨rfl, rfl⟩)
+              | (simp only [Except.ok.injEq] at h; rw [← h]; exact ⟨rfl, rfl, rfl⟩)
 
 private theorem layoutLines_shapes (cb : CB) (fs : Rat) (align : Align) (shapes : List Shape)
     (ls : List LineSpec) (hls : ∀ l ∈ ls, l.floats = []) (y : Rat)
-    (shapes' : List Shape) (out : List PlacedLine) (y' : Rat)
-    (h : layoutLines cb fs align shapes ls y = .ok (shapes', out, y')) : shapes' = shapes := by
-  induction ls generalizing y out y' shapes' with
-  | nil => simp [layoutLines] at h; exact h.1.symm
+    (shapes' top' : List Shape) (out : List PlacedLine) (y' : Rat)
+    (h : layoutLines cb fs align shapes shapes ls y = .ok (shapes', top', out, y')) :
+    shapes' = shapes ∧ top' = shapes := by
+  induction ls generalizing y out y' shapes' top' with
+  | nil => simp [layoutLines] at h; exact ⟨h.1.symm, h.2.1.symm⟩
   | cons l rest ih =>
     simp only [layoutLines] at h
     split at h
     · simp at h
     · rename_i t ht
       have hl := hls l (by simp)
-      have hts : t.shapes = shapes ∧ t.marks = [] := by
+      have hts : t.shapes = shapes ∧ t.top = shapes ∧ t.marks = [] := by
         unfold nextLinebox at ht
         simp only at ht
         split at ht
         · simp at ht
         · exact lineLoop_shapes cb fs align l shapes hl _ _ _ _ _ _ t ht
-      simp only [hts.1, hts.2, List.take_length, List.drop_length, List.map_nil, List.append_nil,
-        inlinePass2] at h
+      simp only [hts.1, hts.2.1, hts.2.2, inlinePass2] at h
       split at h
       · simp at h
-      · rename_i s3 r y3 hrec
+      · rename_i s3 t3 r y3 hrec
         simp only [Except.ok.injEq, Prod.mk.injEq] at h
-        have := ih (fun l hl => hls l (by simp [hl])) _ _ _ _ hrec
-        rw [← h.1]; exact this
+        have := ih (fun l hl => hls l (by simp [hl])) _ _ _ _ _ hrec
+        rw [← h.1, ← h.2.1]; exact this
 
 
 /-- The items the theorem is about: floats with area (given resolved or by their computed style), any
-in-flow block, BFC root, image or table, and paragraphs whose lines hold no float (a float met inside a line is
-snapped to the line's top — known finding inline-float-snapped-to-line-top — and breaks the invariant). -/
+in-flow block, BFC root, image or table, and paragraphs whose lines hold no float (paragraphs with floats met
+inside their lines: `flow_inline_floats_*` below). -/
 def ItemOk (cb : CB) : Item → Prop
   | .float b => GoodFloat b
   | .floatSpec f => GoodFloat (floatResolve f cb.w)
@@ -216,10 +222,12 @@ def floatRects : List Placed → List (Rat × Rat × Rat × Rat)
 def Shape.rect (s : Shape) : Rat × Rat × Rat × Rat := (s.x, s.y, s.mw, s.mh)
 
 private theorem flowFloat_inv (cb : CB) (st st' : FlowState) (b : ABox) (pl : Placed)
-    (hb : GoodFloat b) (hinv : FloatsInv st.shapes) (h : flowFloat cb st b = .ok (st', pl)) :
-    FloatsInv st'.shapes ∧ ∃ x y mw mh, pl = .float x y mw mh ∧
+    (hb : GoodFloat b) (hinv : FloatsInv st.shapes) (htop : st.top = st.shapes)
+    (h : flowFloat cb st b = .ok (st', pl)) :
+    FloatsInv st'.shapes ∧ st'.top = st'.shapes ∧ ∃ x y mw mh, pl = .float x y mw mh ∧
       st'.shapes.map Shape.rect = st.shapes.map Shape.rect ++ [(x, y, mw, mh)] := by
   unfold flowFloat at h
+  rw [htop, floatLayout_self] at h
   split at h
   · simp at h
   · rename_i b' shapes' hpl
@@ -231,36 +239,38 @@ private theorem flowFloat_inv (cb : CB) (st st' : FlowState) (b : ABox) (pl : Pl
     obtain ⟨f1, _, f3, f4, _⟩ := afterClearance_fields st.shapes
       { b with px := cb.cx, py := st.y + collapseMargin st.adj }
     rw [← h.1]
-    refine ⟨⟨i1, i2, i3⟩, b'.px, b'.py, b'.marginWidth, b'.marginHeight, h.2.symm, ?_⟩
+    refine ⟨⟨i1, i2, i3⟩, rfl, b'.px, b'.py, b'.marginWidth, b'.marginHeight, h.2.symm, ?_⟩
     simp only
     rw [hsh, hb']
     simp [Shape.rect, ABox.marginWidth, ABox.marginHeight] at f3 f4 ⊢
     constructor <;> grind
 
-/-- One child of the container keeps `excluded_shapes` well formed, and adds to it exactly the margin box it
-reports for a block-level float (nothing for any other item). -/
+/-- One child of the container keeps `excluded_shapes` well formed (and equal to the top of the stack of
+formatting contexts), and adds to it exactly the margin box it reports for a block-level float (nothing for any
+other item). -/
 theorem flowStep_inv (cb : CB) (st st' : FlowState) (it : Item) (pl : Placed)
-    (hit : ItemOk cb it) (hinv : FloatsInv st.shapes) (h : flowStep cb st it = .ok (st', pl)) :
-    FloatsInv st'.shapes ∧
+    (hit : ItemOk cb it) (hinv : FloatsInv st.shapes) (htop : st.top = st.shapes)
+    (h : flowStep cb st it = .ok (st', pl)) :
+    FloatsInv st'.shapes ∧ st'.top = st'.shapes ∧
     st'.shapes.map Shape.rect = st.shapes.map Shape.rect ++ floatRects [pl] := by
   cases it with
   | float b =>
-    obtain ⟨i, x, y, mw, mh, hp, hs⟩ := flowFloat_inv cb st st' b pl hit hinv (by simpa [flowStep] using h)
-    exact ⟨i, by rw [hs, hp]; simp [floatRects]⟩
+    obtain ⟨i, t, x, y, mw, mh, hp, hs⟩ := flowFloat_inv cb st st' b pl hit hinv htop (by simpa [flowStep] using h)
+    exact ⟨i, t, by rw [hs, hp]; simp [floatRects]⟩
   | floatSpec f =>
-    obtain ⟨i, x, y, mw, mh, hp, hs⟩ := flowFloat_inv cb st st' _ pl hit hinv (by simpa [flowStep] using h)
-    exact ⟨i, by rw [hs, hp]; simp [floatRects]⟩
+    obtain ⟨i, t, x, y, mw, mh, hp, hs⟩ := flowFloat_inv cb st st' _ pl hit hinv htop (by simpa [flowStep] using h)
+    exact ⟨i, t, by rw [hs, hp]; simp [floatRects]⟩
   | para c fs align lines mt mb =>
-    simp only [flowStep] at h
+    simp only [flowStep, htop] at h
     split at h
     · simp at h
-    · rename_i shapes' placed y' hl
+    · rename_i shapes' top' placed y' hl
       simp only [Except.ok.injEq, Prod.mk.injEq] at h
-      have := layoutLines_shapes cb fs align st.shapes lines hit _ _ _ _ hl
+      have := layoutLines_shapes cb fs align st.shapes lines hit _ _ _ _ _ hl
       rw [← h.1, ← h.2]
-      simp [floatRects, this, hinv]
+      simp [floatRects, this.1, this.2, hinv]
   | bfc c width h0 ml mr mt mb =>
-    simp only [flowStep] at h
+    simp only [flowStep, htop] at h
     split at h
     · simp at h
     · simp only [Except.ok.injEq, Prod.mk.injEq] at h
@@ -269,9 +279,9 @@ theorem flowStep_inv (cb : CB) (st st' : FlowState) (it : Item) (pl : Placed)
   | block c h0 mt mb =>
     simp only [flowStep, Except.ok.injEq, Prod.mk.injEq] at h
     rw [← h.1, ← h.2]
-    split <;> simp [floatRects, hinv]
+    split <;> simp [floatRects, hinv, htop]
   | replaced kind c w h0 ml mr =>
-    simp only [flowStep] at h
+    simp only [flowStep, htop, ite_self] at h
     split at h
     · simp at h
     · simp only [Except.ok.injEq, Prod.mk.injEq] at h
@@ -287,7 +297,7 @@ margins, `clear`, percentages, auto widths), paragraphs, BFC roots, images, tabl
 collapsing margins, the floats end up pairwise disjoint with their tops in document order — the reported
 margin boxes of the floats are exactly a well-formed `excluded_shapes` list. -/
 theorem flow_floats_disjoint_and_ordered (cb : CB) (items : List Item) (st : FlowState) (out : List Placed)
-    (hit : ∀ it ∈ items, ItemOk cb it) (hinv : FloatsInv st.shapes)
+    (hit : ∀ it ∈ items, ItemOk cb it) (hinv : FloatsInv st.shapes) (htop : st.top = st.shapes)
     (h : flowFrom cb st items = .ok out) :
     ∃ shapes', FloatsInv shapes' ∧ floatsOk shapes' = true ∧
       shapes'.map Shape.rect = st.shapes.map Shape.rect ++ floatRects out := by
@@ -304,8 +314,8 @@ theorem flow_floats_disjoint_and_ordered (cb : CB) (items : List Item) (st : Flo
       · simp at h
       · rename_i out' hrest
         simp only [Except.ok.injEq] at h
-        obtain ⟨i1, i2⟩ := flowStep_inv cb st st' it pl (hit it (by simp)) hinv hstep
-        obtain ⟨sh, j1, j2, j3⟩ := ih st' out' (fun it' h' => hit it' (by simp [h'])) i1 hrest
+        obtain ⟨i1, it1, i2⟩ := flowStep_inv cb st st' it pl (hit it (by simp)) hinv htop hstep
+        obtain ⟨sh, j1, j2, j3⟩ := ih st' out' (fun it' h' => hit it' (by simp [h'])) i1 it1 hrest
         refine ⟨sh, j1, j2, ?_⟩
         rw [j3, i2, ← h, floatRects_cons pl out', List.append_assoc]
 
@@ -314,8 +324,8 @@ by the checker that the harness runs on rendered documents. -/
 theorem flow_accepted (cb : CB) (items : List Item) (y : Rat) (out : List Placed)
     (hit : ∀ it ∈ items, ItemOk cb it) (h : flow cb [] y items = .ok out) :
     ∃ shapes', floatsOk shapes' = true ∧ shapes'.map Shape.rect = floatRects out := by
-  obtain ⟨sh, _, h2, h3⟩ := flow_floats_disjoint_and_ordered cb items ⟨[], y, []⟩ out hit
-    ⟨by intro s hs; simp at hs, by simp [SortedTops], by simp [PairwiseDisjoint]⟩ h
+  obtain ⟨sh, _, h2, h3⟩ := flow_floats_disjoint_and_ordered cb items ⟨[], [], y, []⟩ out hit
+    ⟨by intro s hs; simp at hs, by simp [SortedTops], by simp [PairwiseDisjoint]⟩ rfl h
   exact ⟨sh, h2, by simpa using h3⟩
 
 end Wp.C11
@@ -326,15 +336,16 @@ open Wp Wp.Floats
 /-! ## In-flow boxes of the flow and floats -/
 
 /-- **A BFC root placed by the flow overlaps no float when it fits**: the border box reported for a `bfc` item of
-positive height that is not wider than the room `avoid_collisions` found overlaps no float of the context and
+positive height that is not wider than the room `avoid_collisions` found overlaps no float of the context (the list
+on top of the stack of formatting contexts, which is current again once the root's own content is laid out) and
 lies inside the containing block shrunk by its margins. -/
 theorem flow_bfc_no_overlap (cb : CB) (st st' : FlowState) (c : Clear) (width : Len) (h0 ml mr mt mb : Rat)
-    (x y w h : Rat) (hh : 0 < h0) (hp : Proper st.shapes)
+    (x y w h : Rat) (hh : 0 < h0) (hp : Proper st.top)
     (hstep : flowStep cb st (.bfc c width h0 ml mr mt mb) = .ok (st', .bfc x y w h))
-    (hroom : ∀ p, avoidCollisions st.shapes
+    (hroom : ∀ p, avoidCollisions st.top
       ⟨cb.cx, (clearedTop st.shapes c st.y (collapseMargin (st.adj ++ [mt]))).1 - mt, mt, mb, ml, mr, w, h0,
         .none, c, .bfc⟩ cb false = .ok p → w ≤ p.avail) :
-    (∀ s ∈ st.shapes, ¬ Overlaps x y w h s) ∧ cb.cx + ml ≤ x ∧ x + w ≤ cb.cx + cb.w - mr ∧
+    (∀ s ∈ st.top, ¬ Overlaps x y w h s) ∧ cb.cx + ml ≤ x ∧ x + w ≤ cb.cx + cb.w - mr ∧
     (clearedTop st.shapes c st.y (collapseMargin (st.adj ++ [mt]))).1 ≤ y := by
   simp only [flowStep] at hstep
   split at hstep
@@ -344,7 +355,7 @@ theorem flow_bfc_no_overlap (cb : CB) (st st' : FlowState) (c : Clear) (width : 
     obtain ⟨_, hx, hy, hw, hh'⟩ := hstep
     subst hw
     have hfit := hroom p hp'
-    have := placed_box_no_overlap st.shapes _ cb false p (by simp) hp' (by simpa using hh) hp
+    have := placed_box_no_overlap st.top _ cb false p (by simp) hp' (by simpa using hh) hp
       (by simpa using hfit)
     simp at this
     rw [← hx, ← hy, ← hh']
@@ -357,10 +368,10 @@ theorem flow_bfc_no_overlap (cb : CB) (st st' : FlowState) (c : Clear) (width : 
 /-- A float is not laid out above the position it is given (`float_layout`: clearance only moves it down,
 `find_float_position` never up). -/
 theorem floatPlace_not_above (shapes : List Shape) (b : ABox) (cb : CB) (b' : ABox) (shapes' : List Shape)
-    (hf : b.float ≠ .none) (hz : b.bh ≠ 0) (h : floatPlace shapes b cb = .ok (b', shapes')) :
+    (hf : b.float ≠ .none) (h : floatPlace shapes b cb = .ok (b', shapes')) :
     b.py ≤ b'.py := by
   obtain ⟨x, y, hpos, hb', _⟩ := floatPlace_ok shapes b cb b' shapes' h
-  obtain ⟨f1, f2, _, _, _⟩ := afterClearance_fields shapes b
+  obtain ⟨f1, _, _, _, _⟩ := afterClearance_fields shapes b
   have h1 : b.py ≤ (afterClearance shapes b).py := by
     unfold afterClearance
     split
@@ -368,20 +379,42 @@ theorem floatPlace_not_above (shapes : List Shape) (b : ABox) (cb : CB) (b' : AB
       have := (clearance_least shapes b.clear b.py 0 c hc).1
       simp; grind
     · exact Rat.le_refl
-  obtain ⟨r1, _⟩ := float_rules shapes _ cb x y (by rw [f1]; exact hf) (by rw [f2]; exact hz) hpos
+  obtain ⟨r1, _⟩ := float_rules shapes _ cb x y (by rw [f1]; exact hf) hpos
   rw [hb']; simp; grind
+
+/-- The same with the two float lists of `float_layout` (clearance from the current list, position among the
+floats of the stack's top): never above the position it is given. -/
+theorem floatLayout_not_above (attr top : List Shape) (b : ABox) (cb : CB) (b' : ABox) (top' : List Shape)
+    (hf : b.float ≠ .none) (h : floatLayout attr top b cb = .ok (b', top')) :
+    b.py ≤ b'.py := by
+  unfold floatLayout at h
+  simp only at h
+  split at h
+  · simp at h
+  · rename_i x y hpos
+    simp only [Except.ok.injEq, Prod.mk.injEq] at h
+    obtain ⟨f1, _, _, _, _⟩ := afterClearance_fields attr b
+    have h1 : b.py ≤ (afterClearance attr b).py := by
+      unfold afterClearance
+      split
+      · rename_i c hc
+        have := (clearance_least attr b.clear b.py 0 c hc).1
+        simp; grind
+      · exact Rat.le_refl
+    obtain ⟨r1, _⟩ := float_rules top _ cb x y (by rw [f1]; exact hf) hpos
+    rw [← h.1]; simp; grind
 
 /-- **A float met in a line is never placed above that line** (second pass: the deferred floats are laid out
 from the line's bottom; the floats kept on the line have been given the line's top). -/
 theorem inline_floats_not_above_line (cb : CB) (lineTop lineBottom : Rat) (hle : lineTop ≤ lineBottom)
-    (marks : List (ABox × Option (Rat × Rat × Rat × Rat))) (shapes shapes' : List Shape)
+    (marks : List (ABox × Option (Rat × Rat × Rat × Rat))) (attr top attr' top' : List Shape)
     (rects : List (Rat × Rat × Rat × Rat))
-    (hgood : ∀ m ∈ marks, m.1.float ≠ .none ∧ m.1.bh ≠ 0)
+    (hgood : ∀ m ∈ marks, m.1.float ≠ .none)
     (hplaced : ∀ m ∈ marks, ∀ r, m.2 = some r → lineTop ≤ r.2.1)
-    (h : inlinePass2 cb lineBottom shapes marks = .ok (shapes', rects)) :
+    (h : inlinePass2 cb lineBottom attr top marks = .ok (attr', top', rects)) :
     ∀ r ∈ rects, lineTop ≤ r.2.1 := by
-  induction marks generalizing shapes shapes' rects with
-  | nil => simp [inlinePass2] at h; rw [h.2]; simp
+  induction marks generalizing attr top attr' top' rects with
+  | nil => simp [inlinePass2] at h; rw [h.2.2]; simp
   | cons m rest ih =>
     obtain ⟨b, o⟩ := m
     cases o with
@@ -389,10 +422,10 @@ theorem inline_floats_not_above_line (cb : CB) (lineTop lineBottom : Rat) (hle :
       simp only [inlinePass2] at h
       split at h
       · simp at h
-      · rename_i sh out hrec
+      · rename_i a t out hrec
         simp only [Except.ok.injEq, Prod.mk.injEq] at h
-        have := ih shapes sh out (fun m hm => hgood m (by simp [hm])) (fun m hm => hplaced m (by simp [hm])) hrec
-        rw [← h.2]
+        have := ih attr top a t out (fun m hm => hgood m (by simp [hm])) (fun m hm => hplaced m (by simp [hm])) hrec
+        rw [← h.2.2]
         intro r hr
         rcases List.mem_cons.mp hr with hr | hr
         · rw [hr]; exact hplaced (b, some r0) (by simp) r0 rfl
@@ -404,17 +437,64 @@ theorem inline_floats_not_above_line (cb : CB) (lineTop lineBottom : Rat) (hle :
       · rename_i b' sh1 hpl
         split at h
         · simp at h
-        · rename_i sh out hrec
+        · rename_i a t out hrec
           simp only [Except.ok.injEq, Prod.mk.injEq] at h
           have hg := hgood (b, none) (by simp)
-          have hy := floatPlace_not_above shapes { b with px := cb.cx, py := lineBottom } cb b' sh1
-            hg.1 hg.2 hpl
-          have := ih sh1 sh out (fun m hm => hgood m (by simp [hm])) (fun m hm => hplaced m (by simp [hm])) hrec
-          rw [← h.2]
+          have hy := floatLayout_not_above attr top { b with px := cb.cx, py := lineBottom } cb b' sh1
+            hg hpl
+          have := ih sh1 sh1 a t out (fun m hm => hgood m (by simp [hm])) (fun m hm => hplaced m (by simp [hm])) hrec
+          rw [← h.2.2]
           intro r hr
           rcases List.mem_cons.mp hr with hr | hr
           · rw [hr]; simp at hy ⊢; grind
           · exact this r hr
+
+/-- … and the floats laid out on the line itself (first pass) are not above the line's top either. -/
+theorem inline_placed_not_above_line (cb : CB) (lineY : Rat) (attr top attr' top' : List Shape) (rem : Rat)
+    (w : Bool) (bs : List ABox) (marks : List (ABox × Option (Rat × Rat × Rat × Rat)))
+    (hgood : ∀ b ∈ bs, b.float ≠ .none)
+    (h : inlinePass1 cb lineY attr top rem w bs = .ok (attr', top', marks)) :
+    (∀ m ∈ marks, m.1.float ≠ .none) ∧ ∀ m ∈ marks, ∀ r, m.2 = some r → lineY ≤ r.2.1 := by
+  induction bs generalizing attr top attr' top' rem w marks with
+  | nil => simp [inlinePass1] at h; rw [h.2.2]; simp
+  | cons b rest ih =>
+    simp only [inlinePass1] at h
+    split at h
+    · split at h
+      · simp at h
+      · rename_i a t o hrec
+        simp only [Except.ok.injEq, Prod.mk.injEq] at h
+        obtain ⟨i1, i2⟩ := ih attr top a t rem true o (fun b hb => hgood b (by simp [hb])) hrec
+        rw [← h.2.2]
+        refine ⟨?_, ?_⟩
+        · intro m hm
+          rcases List.mem_cons.mp hm with hm | hm
+          · rw [hm]; exact hgood b (by simp)
+          · exact i1 m hm
+        · intro m hm r hr
+          rcases List.mem_cons.mp hm with hm | hm
+          · rw [hm] at hr; simp at hr
+          · exact i2 m hm r hr
+    · split at h
+      · simp at h
+      · rename_i b' sh1 hpl
+        split at h
+        · simp at h
+        · rename_i a t o hrec
+          simp only [Except.ok.injEq, Prod.mk.injEq] at h
+          have hy := floatLayout_not_above attr top { b with px := cb.cx, py := lineY } cb b' sh1
+            (hgood b (by simp)) hpl
+          obtain ⟨i1, i2⟩ := ih sh1 sh1 a t _ false o (fun b hb => hgood b (by simp [hb])) hrec
+          rw [← h.2.2]
+          refine ⟨?_, ?_⟩
+          · intro m hm
+            rcases List.mem_cons.mp hm with hm | hm
+            · rw [hm]; exact hgood b (by simp)
+            · exact i1 m hm
+          · intro m hm r hr
+            rcases List.mem_cons.mp hm with hm | hm
+            · rw [hm] at hr; simp at hr; rw [← hr]; simpa using hy
+            · exact i2 m hm r hr
 
 /-! ## `get_next_linebox` -/
 
@@ -434,9 +514,9 @@ private theorem avoidCollisions_err (shapes : List Shape) (b : ABox) (cb : CB) (
       · simp at h; exact Or.inr h.symm
       · split at h <;> simp at h
 
-private theorem floatPlace_err (shapes : List Shape) (b : ABox) (cb : CB) (e : PyErr)
-    (h : floatPlace shapes b cb = .error e) : FloatErr e := by
-  unfold floatPlace at h
+private theorem floatLayout_err (attr top : List Shape) (b : ABox) (cb : CB) (e : PyErr)
+    (h : floatLayout attr top b cb = .error e) : FloatErr e := by
+  unfold floatLayout at h
   simp only at h
   split at h
   · rename_i e' he
@@ -450,31 +530,31 @@ private theorem floatPlace_err (shapes : List Shape) (b : ABox) (cb : CB) (e : P
     · simp at he
   · simp at h
 
-private theorem inlinePass1_err (cb : CB) (lineY : Rat) (shapes : List Shape) (rem : Rat) (w : Bool)
-    (bs : List ABox) (e : PyErr) (h : inlinePass1 cb lineY shapes rem w bs = .error e) : FloatErr e := by
-  induction bs generalizing shapes rem w with
+private theorem inlinePass1_err (cb : CB) (lineY : Rat) (attr top : List Shape) (rem : Rat) (w : Bool)
+    (bs : List ABox) (e : PyErr) (h : inlinePass1 cb lineY attr top rem w bs = .error e) : FloatErr e := by
+  induction bs generalizing attr top rem w with
   | nil => simp [inlinePass1] at h
   | cons b rest ih =>
     simp only [inlinePass1] at h
     split at h
     · split at h
-      · rename_i e' he; simp at h; subst h; exact ih _ _ _ he
+      · rename_i e' he; simp at h; subst h; exact ih _ _ _ _ he
       · simp at h
     · split at h
-      · rename_i e' he; simp at h; subst h; exact floatPlace_err _ _ _ _ he
+      · rename_i e' he; simp at h; subst h; exact floatLayout_err _ _ _ _ _ he
       · split at h
-        · rename_i e' he; simp at h; subst h; exact ih _ _ _ he
+        · rename_i e' he; simp at h; subst h; exact ih _ _ _ _ he
         · simp at h
 
 private theorem floatErr_not_loop (e : PyErr) (h : FloatErr e) : e ≠ .recursion "get_next_linebox:loop" := by
   rcases h with h | h <;> subst h <;> simp
 
 private theorem lineLoop_succ (cb : CB) (strut : Rat) (align : Align) (l : LineSpec) (shapes0 : List Shape)
-    (fuel : Nat) (px py avail lbw cand : Rat) :
-    lineLoop cb strut align l shapes0 (fuel + 1) px py avail lbw cand =
-      (match inlinePass1 cb py shapes0 (avail - l.w) false l.floats with
+    (fuel : Nat) (attr top : List Shape) (px py avail lbw cand : Rat) :
+    lineLoop cb strut align l shapes0 (fuel + 1) attr top px py avail lbw cand =
+      (match inlinePass1 cb py (if l.bfc then top else attr) top (avail - l.w) false l.floats with
       | .error e => .error e
-      | .ok (shapes1, marks) =>
+      | .ok (shapes1, top1, marks) =>
         let split : ABox := ⟨px, py, 0, 0, 0, 0, l.w, strut, .none, .none, .line⟩
         let laid : ABox := ⟨px, py, 0, 0, 0, 0, l.w, l.h, .none, .none, .line⟩
         match avoidCollisions shapes1 split cb false with
@@ -482,25 +562,26 @@ private theorem lineLoop_succ (cb : CB) (strut : Rat) (align : Align) (l : LineS
         | .ok p2 =>
           let off := textAlign align cb.rtl l.w p2.avail
           let x := if cb.rtl then px + (-off - l.w) else px + off
-          if l.h ≤ cand then .ok ⟨shapes1, marks, x, py⟩ else
+          if l.h ≤ cand then .ok ⟨shapes1, top1, marks, x, py⟩ else
           match avoidCollisions shapes0 laid cb false with
           | .error e => .error e
           | .ok p3 =>
             let same := if !cb.rtl then p3.x = px ∧ p3.y = py else p3.x + l.w = px + lbw ∧ p3.y = py
-            if same then .ok ⟨shapes1, marks, x, py⟩
-            else lineLoop cb strut align l shapes0 fuel p3.x p3.y p3.avail l.w l.h) := by
+            if same then .ok ⟨shapes1, top1, marks, x, py⟩
+            else lineLoop cb strut align l shapes0 fuel shapes0 top1 p3.x p3.y p3.avail l.w l.h) := by
   rfl
 
 /-- One pass that starts with the line's own height as candidate height ends the loop. -/
 private theorem lineLoop_second (cb : CB) (strut : Rat) (align : Align) (l : LineSpec) (shapes0 : List Shape)
-    (n : Nat) (px py avail lbw : Rat) :
-    lineLoop cb strut align l shapes0 (n + 1) px py avail lbw l.h ≠ .error (.recursion "get_next_linebox:loop") := by
+    (n : Nat) (attr top : List Shape) (px py avail lbw : Rat) :
+    lineLoop cb strut align l shapes0 (n + 1) attr top px py avail lbw l.h ≠
+      .error (.recursion "get_next_linebox:loop") := by
   rw [lineLoop_succ]
   simp only
   split
   · rename_i e he
     intro h; simp at h
-    exact floatErr_not_loop e (inlinePass1_err _ _ _ _ _ _ _ he) h
+    exact floatErr_not_loop e (inlinePass1_err _ _ _ _ _ _ _ _ he) h
   · split
     · rename_i e he
       intro h; simp at h
@@ -511,14 +592,15 @@ private theorem lineLoop_second (cb : CB) (strut : Rat) (align : Align) (l : Lin
 is given goes through the loop at most twice (the second pass starts with the line's own height as
 candidate height), so the fuel of the model (3) is never exhausted. -/
 theorem next_linebox_terminates (cb : CB) (strut : Rat) (align : Align) (l : LineSpec) (shapes0 : List Shape)
-    (n : Nat) (px py avail lbw cand : Rat) :
-    lineLoop cb strut align l shapes0 (n + 2) px py avail lbw cand ≠ .error (.recursion "get_next_linebox:loop") := by
+    (n : Nat) (attr top : List Shape) (px py avail lbw cand : Rat) :
+    lineLoop cb strut align l shapes0 (n + 2) attr top px py avail lbw cand ≠
+      .error (.recursion "get_next_linebox:loop") := by
   rw [lineLoop_succ]
   simp only
   split
   · rename_i e he
     intro h; simp at h
-    exact floatErr_not_loop e (inlinePass1_err _ _ _ _ _ _ _ he) h
+    exact floatErr_not_loop e (inlinePass1_err _ _ _ _ _ _ _ _ he) h
   · split
     · rename_i e he
       intro h; simp at h
@@ -531,7 +613,7 @@ theorem next_linebox_terminates (cb : CB) (strut : Rat) (align : Align) (l : Lin
           exact floatErr_not_loop e (avoidCollisions_err _ _ _ _ _ he) h
         · split <;> split <;>
             first
-              | exact lineLoop_second cb strut align l shapes0 n _ _ _ _
+              | exact lineLoop_second cb strut align l shapes0 n _ _ _ _ _ _
               | simp
 
 end Wp.C11
@@ -541,19 +623,53 @@ open Wp Wp.Floats
 
 /-! ## The beginning of `float_layout` and `text_align` -/
 
-/-- An auto width of a float respects `min-width`, and `max-width` when `min-width ≤ max-width`. -/
-theorem float_auto_width_minmax (minW : Rat) (maxW : Option Rat) (minC maxC cbW : Rat) :
-    minW ≤ floatWidthAuto minW maxW minC maxC cbW ∧
-    (∀ mx, maxW = some mx → minW ≤ mx → floatWidthAuto minW maxW minC maxC cbW ≤ mx) := by
-  unfold floatWidthAuto
+/-- The used width of a float — auto or specified (repaired in 802b9d8: a specified width used to escape the
+clamp) — respects `min-width`, and `max-width` when `min-width ≤ max-width`. -/
+theorem float_width_minmax (width : Len) (minW : Rat) (maxW : Option Rat) (minC maxC avail : Rat) :
+    minW ≤ floatWidth width minW maxW minC maxC avail ∧
+    (∀ mx, maxW = some mx → minW ≤ mx → floatWidth width minW maxW minC maxC avail ≤ mx) := by
+  unfold floatWidth clampMinMax
   cases maxW with
   | none => simp only; constructor <;> (try split) <;> grind
   | some mx => simp only; constructor <;> (try split) <;> (try split) <;> grind
 
-/-- Without min/max constraints the auto width is the shrink-to-fit width for the *whole* containing block. -/
-theorem float_auto_width_shrink_to_fit (minC maxC cbW : Rat) (h0 : 0 ≤ min (max minC cbW) maxC) :
-    floatWidthAuto 0 none minC maxC cbW = min (max minC cbW) maxC := by
-  unfold floatWidthAuto; simp only; split <;> grind
+/-- A specified width inside `[min-width, max-width]` is the used width. -/
+theorem float_width_specified (w minW : Rat) (maxW : Option Rat) (minC maxC avail : Rat)
+    (h1 : minW ≤ w) (h2 : ∀ mx, maxW = some mx → w ≤ mx) :
+    floatWidth (some w) minW maxW minC maxC avail = w := by
+  unfold floatWidth clampMinMax
+  cases maxW with
+  | none => simp only; split <;> grind
+  | some mx => have := h2 mx rfl; simp only; split <;> split <;> grind
+
+/-- An auto width of a float respects `min-width`, and `max-width` when `min-width ≤ max-width`. -/
+theorem float_auto_width_minmax (minW : Rat) (maxW : Option Rat) (minC maxC avail : Rat) :
+    minW ≤ floatWidthAuto minW maxW minC maxC avail ∧
+    (∀ mx, maxW = some mx → minW ≤ mx → floatWidthAuto minW maxW minC maxC avail ≤ mx) :=
+  float_width_minmax none minW maxW minC maxC avail
+
+/-- Without min/max constraints the auto width is the shrink-to-fit width for the available width. -/
+theorem float_auto_width_shrink_to_fit (minC maxC avail : Rat) (h0 : 0 ≤ min (max minC avail) maxC) :
+    floatWidthAuto 0 none minC maxC avail = min (max minC avail) maxC := by
+  unfold floatWidthAuto floatWidth clampMinMax; simp only; split <;> grind
+
+/-- **CSS 2.1 §10.3.5 for floats** (repaired in 8719f13): the width offered to shrink-to-fit is what the float's own
+margins, borders and paddings leave of the containing block, so an auto-width float whose content can shrink
+(`min-content ≤` that width) and that has no min/max constraint has a margin box that fits its containing block. -/
+theorem float_auto_width_fits (f : FloatSpec) (cbW : Rat) (hw : f.width = .auto)
+    (hmin : f.minW = .auto) (hmax : f.maxW = .auto)
+    (hc : f.minC ≤ cbW - (Absolute.autoZero (f.ml.resolve cbW) + Absolute.autoZero (f.mr.resolve cbW) +
+      Absolute.autoZero (f.pl.resolve cbW) + Absolute.autoZero (f.pr.resolve cbW) + f.bl + f.br))
+    (h0 : 0 ≤ f.minC) :
+    (floatResolve f cbW).marginWidth ≤ cbW := by
+  have e1 : Absolute.Dim.auto.resolve cbW = none := rfl
+  simp only [floatResolve, ABox.marginWidth, hw, hmin, hmax, e1]
+  generalize Absolute.autoZero (f.ml.resolve cbW) = ml at *
+  generalize Absolute.autoZero (f.mr.resolve cbW) = mr at *
+  generalize Absolute.autoZero (f.pl.resolve cbW) = pl at *
+  generalize Absolute.autoZero (f.pr.resolve cbW) = pr at *
+  simp only [floatWidth, clampMinMax, Absolute.autoZero]
+  grind
 
 /-- `text_align` never moves a line out of the width it was given: the offset is between 0 and the free space. -/
 theorem text_align_inside (a : Align) (rtl : Bool) (w avail : Rat) :
@@ -706,7 +822,7 @@ out by the model, and its floats pass the checker. -/
 example :
     let items : List Item := [
       .float ⟨0, 0, 0, 0, 0, 0, 60, 50, .left, .none, .bfc⟩,
-      .para .none 10 .right [⟨30, 30, 10, []⟩, ⟨0, 50, 30, []⟩] 0 7,
+      .para .none 10 .right [⟨30, 30, 10, [], false⟩, ⟨0, 50, 30, [], true⟩] 0 7,
       .floatSpec ⟨.right, .left, .auto, none, .px 0, .pct 25, .auto, .px 0, .px 2, .px 2, .px 0, .px 0, 1, 1, 0, 0,
         .auto, .px 40, 30, 70, 10, 20⟩,
       .block .both 5 12 0,
@@ -716,7 +832,7 @@ example :
   refine ⟨?_, by decide +kernel⟩
   intro it hit
   simp at hit
-  rcases hit with h | h | h | h | h <;> subst h <;> simp [ItemOk, GoodFloat, floatResolve, floatWidthAuto,
+  rcases hit with h | h | h | h | h <;> subst h <;> simp [ItemOk, GoodFloat, floatResolve, floatWidth, clampMinMax,
     ABox.marginHeight, ABox.marginWidth, Absolute.Dim.resolve, Absolute.autoZero] <;> decide +kernel
 
 end Wp.C11
@@ -779,5 +895,118 @@ theorem flow_events_accepted (cb : CB) (items : List Item) (y : Rat) (out : List
     ∃ shapes' : List Shape, shapes'.map Shape.rect = floatRects out ∧ checkEvents [] 0 (shapes'.map Event.float) = none := by
   obtain ⟨sh, h1, h2⟩ := flow_accepted cb items y out hit h
   exact ⟨sh, h2, checkEvents_floats_complete [] 0 sh (by simpa using h1)⟩
+
+end Wp.C11
+
+namespace Wp.C11
+open Wp Wp.Positioned Wp.Absolute
+
+/-! ## Fixed boxes on pages whose areas differ, nested fixed boxes (`Model/FixedPages.lean`) -/
+
+/-- **The offsets of a fixed box refer to the page area it is laid out against**: `left` / `top` are measured from
+the area's top-left corner; with `left` (resp. `top`) auto, `right` / `bottom` are measured from its bottom-right
+corner: `left + margin box + right = width of the page area` with the area of *that* page. -/
+theorem fixedPos_spec (area : Rect) (st : FixedStyle) (x y : Rat) (hw : 0 ≤ st.w)
+    (h : fixedPos area st = .ok (x, y)) :
+    (∀ l, st.left.resolve area.w = some l → x = area.x + l) ∧
+    (∀ r, st.left.resolve area.w = none → st.right.resolve area.w = some r →
+      x + (st.w + st.ml + st.mr) + r = area.x + area.w) ∧
+    (∀ t, st.top.resolve area.h = some t → y = area.y + t) ∧
+    (∀ b, st.top.resolve area.h = none → st.bottom.resolve area.h = some b →
+      y + (st.h + st.mt + st.mb) + b = area.y + area.h) := by
+  unfold fixedPos absoluteBlock at h
+  simp only [FixedStyle.toAbs] at h
+  generalize st.left.resolve area.w = L at *
+  generalize st.right.resolve area.w = R at *
+  generalize st.top.resolve area.h = T at *
+  generalize st.bottom.resolve area.h = B at *
+  have hnlt : ¬ st.w < 0 := by grind
+  cases L <;> cases R <;> cases T <;> cases B <;>
+    simp [Dim.resolve, autoZero, absoluteWidth, absoluteWidthCore, maxStage, minStage, finalX, absoluteHeight,
+      finalY, HBox.pb, VBox.pb, hnlt] at h <;>
+    (obtain ⟨hx, hy⟩ := h; subst hx; subst hy; simp; try grind)
+
+mutual
+/-- The boxes of a tree of fixed boxes, in tree order. -/
+def nodesTree : FixedTree → List (Nat × FixedStyle)
+  | .mk id st _ kids => (id, st) :: nodesTrees kids
+def nodesTrees : List FixedTree → List (Nat × FixedStyle)
+  | [] => []
+  | t :: ts => nodesTree t ++ nodesTrees ts
+end
+
+mutual
+/-- Every box drawn for a collected fixed box — the box itself and every fixed box nested in it at any depth — is
+placed by `absolute_box_layout` against the same `area`: that of the page it is drawn on. -/
+theorem layoutTree_spec (area : Rect) : ∀ (t : FixedTree) (l : List (Nat × Rat × Rat)),
+    layoutTree area t = .ok l →
+      l.map (·.1) = (nodesTree t).map (·.1) ∧
+      ∀ e ∈ l, ∃ n ∈ nodesTree t, n.1 = e.1 ∧ fixedPos area n.2 = .ok e.2
+  | .mk id st late kids, l, h => by
+    simp only [layoutTree] at h
+    split at h
+    · rename_i x y rest hp hk
+      simp only [Except.ok.injEq] at h
+      obtain ⟨i1, i2⟩ := layoutTrees_spec area kids rest hk
+      subst h
+      refine ⟨by simp [nodesTree, i1], ?_⟩
+      intro e he
+      rcases List.mem_cons.mp he with he | he
+      · exact ⟨(id, st), by simp [nodesTree], by rw [he], by rw [he]; exact hp⟩
+      · obtain ⟨n, hn, h1, h2⟩ := i2 e he
+        exact ⟨n, by simp [nodesTree, hn], h1, h2⟩
+    · simp at h
+    · simp at h
+theorem layoutTrees_spec (area : Rect) : ∀ (ts : List FixedTree) (l : List (Nat × Rat × Rat)),
+    layoutTrees area ts = .ok l →
+      l.map (·.1) = (nodesTrees ts).map (·.1) ∧
+      ∀ e ∈ l, ∃ n ∈ nodesTrees ts, n.1 = e.1 ∧ fixedPos area n.2 = .ok e.2
+  | [], l, h => by simp [layoutTrees] at h; subst h; simp [nodesTrees]
+  | t :: ts, l, h => by
+    simp only [layoutTrees] at h
+    split at h
+    · rename_i a b ha hb
+      simp only [Except.ok.injEq] at h
+      obtain ⟨i1, i2⟩ := layoutTree_spec area t a ha
+      obtain ⟨j1, j2⟩ := layoutTrees_spec area ts b hb
+      subst h
+      refine ⟨by simp [nodesTrees, i1, j1], ?_⟩
+      intro e he
+      rcases List.mem_append.mp he with he | he
+      · obtain ⟨n, hn, h1, h2⟩ := i2 e he
+        exact ⟨n, by simp [nodesTrees, hn], h1, h2⟩
+      · obtain ⟨n, hn, h1, h2⟩ := j2 e he
+        exact ⟨n, by simp [nodesTrees, hn], h1, h2⟩
+    · simp at h
+    · simp at h
+end
+
+/-- **A fixed box is laid out identically on every page, against the page it is drawn on**: on page `i` of the
+document every fixed box drawn there — collected on any page, nested at any depth — is positioned against
+`areas[i]` (so by `fixedPos_spec` its offsets refer to the area of page `i`, whatever the area of the page its
+source lies on), and the boxes drawn on page `i` are, in tree order, the boxes of the trees `pageTrees pages i`. -/
+theorem fixed_boxes_use_their_own_page (areas : List Rect) (pages : List (List FixedTree)) (i : Nat)
+    (hi : i < pages.length) (l : List (Nat × Rat × Rat))
+    (h : (layoutFixedDoc areas pages)[i]? = some (.ok l)) :
+    l.map (·.1) = (nodesTrees (pageTrees pages i)).map (·.1) ∧
+    ∀ e ∈ l, ∃ n ∈ nodesTrees (pageTrees pages i), n.1 = e.1 ∧ fixedPos (areas.getD i default) n.2 = .ok e.2 := by
+  unfold layoutFixedDoc at h
+  rw [List.getElem?_map, List.getElem?_range hi] at h
+  simp only [Option.map_some, Option.some.injEq] at h
+  exact layoutTrees_spec _ _ _ h
+
+/-- Equal page areas give equal positions (the only input besides the box's own style). -/
+theorem fixed_tree_same (a1 a2 : Rect) (t : FixedTree) (h : a1 = a2) : layoutTree a1 t = layoutTree a2 t := by
+  rw [h]
+
+/-- Non-vacuity: an outer fixed box (`right: 10%; bottom: 6px`) declared on page 1 with a nested fixed box
+(`left: 5px; top: 8px`), pages with areas (40, 25, 150, 265) and (10, 10, 150, 260): on each page both boxes are
+placed against that page's area. -/
+example :
+    let inner : FixedTree := .mk 2 ⟨.px 5, .auto, .px 8, .auto, 20, 10, 4, 2, 1, 3⟩ false []
+    let outer : FixedTree := .mk 1 ⟨.auto, .pct 10, .auto, .px 6, 60, 40, 0, 0, 0, 0⟩ false [inner]
+    (layoutFixedDoc [⟨40, 25, 150, 265⟩, ⟨10, 10, 150, 260⟩] [[outer], []]).map Except.toOption =
+      [some [(1, 115, 244), (2, 45, 33)], some [(1, 85, 224), (2, 15, 18)]] := by
+  decide +kernel
 
 end Wp.C11
